@@ -156,7 +156,7 @@ inline V nth(const V &start, const V &delta, int k) {
 // choose a random segmentation of a flat list: maximal constant / arithmetic runs may be compressed
 inline bool runnable_const(char t) { return strchr("ichfdTFsSrmtbNI", t) != nullptr; }
 inline bool runnable_arith(char t) { return strchr("ichfd", t) != nullptr; }
-inline Seg gen_seg(const std::vector<V> &l, int pct_compress) {
+inline Seg gen_seg(const std::vector<V> &l, int pct_compress, bool allow_wrap = true, const char *arith_types = "ichfd") {   // allow_wrap: integer runs whose expansion wraps around the type's limits
   Seg seg;
   size_t i = 0;
   while (i < l.size()) {
@@ -170,11 +170,16 @@ inline Seg gen_seg(const std::vector<V> &l, int pct_compress) {
         continue;
       }
     }
-    if (l[i].t != 'a' && runnable_arith(l[i].t) && i + 1 < l.size() && l[i + 1].t == l[i].t && !v_eq(l[i], l[i + 1])) {
+    if (l[i].t != 'a' && runnable_arith(l[i].t) && strchr(arith_types, l[i].t) && i + 1 < l.size() && l[i + 1].t == l[i].t && !v_eq(l[i], l[i + 1])) {
       V d = delta_of(l[i], l[i + 1]);
       j = i + 1;
       while (j < l.size() && l[j].t == l[i].t && v_same(l[j], nth(l[i], d, (int)(j - i)))) j++;
       if (!v_same(l[i], nth(l[i], d, 0))) j = i + 1;
+      if (!allow_wrap && (l[i].t == 'i' || l[i].t == 'h' || l[i].t == 'c')) {
+        size_t k = i + 1;
+        while (k < j && (d.i > 0) == (l[k].i > l[k - 1].i)) k++;
+        j = k;
+      }
       if (j - i >= 2 && vf::chance(pct_compress)) {
         size_t take = (size_t)vf::pick<int>(2, (int)(j - i));
         seg.push_back(-(int)take);
